@@ -8,6 +8,7 @@ import common
 from common import hexs, unhexs, Broken
 
 ALPHA = ["a", "\n", "\r\n", "ß", "ℝ", "💣"]
+EXOTIC = ["\ufeff", "\u2028", "\u2029", "\u0085", "\x00", "\u200b", "\x0c", "\x0b", "e\u0301", "\ufffd", "\u00a0", "\x7f"]
 
 
 def docs(maxlen):
@@ -101,6 +102,8 @@ def c14_cases(tier, rng):
     for _ in range(60 if tier == "quick" else 1000):
         n = rng.randint(4, 40)
         ds.append("".join(rng.choice(SWEEP + ["a", "\n", " "]) for _ in range(n)))
+    for X in EXOTIC:
+        ds += [X, X + "a\nb" + X, "a\n" + X + "b\r\n" + X + X, X + "💣" + X + "\n" + X]
     return ds
 
 
@@ -279,6 +282,24 @@ def run_c13(res, tier, seed):
                     reqs.append(f"edit\t{h}\t{l}\t{big}\t{l}\t{big}\t78")
                     new = s.encode()[:end_off] + b"x" + s.encode()[end_off:]
                     exp.append("ok " + new.hex())
+    # unusual but legitimate characters (byte order mark, Unicode line/paragraph separators, NEL, NUL, zero-width space,
+    # form feed, vertical tab, a combining sequence, the replacement character) at the start, after a line break, inside and
+    # at the end: they are text like any other, and only LF / CRLF end a line
+    for X in EXOTIC:
+        for d in (X, X + X, X + "a\nb", "a\n" + X + "b", "ab" + X, "a" + X + "\r\nß" + X, X + "💣\n" + X):
+            h = hexs(d)
+            pos = client_positions(d)
+            for i in range(len(pos)):
+                for j in range(i, len(pos)):
+                    (sl, sc, si), (el, ec, ei) = pos[i], pos[j]
+                    for ins in ("", "x", X, "\n" + X):
+                        new = client_apply(d, si, ei, ins)
+                        if not wf_crlf(new):
+                            continue
+                        reqs.append(f"edit\t{h}\t{sl}\t{sc}\t{el}\t{ec}\t{hexs(ins)}")
+                        exp.append("ok " + hexs(strip_cr(new)))
+            reqs.append(f"editfull\t61\t{h}")
+            exp.append("ok " + hexs(strip_cr(d)))
     # full-text replacement
     for ins in ins_strings(3):
         reqs.append(f"editfull\t61\t{hexs(ins)}")
@@ -298,7 +319,7 @@ def run_c13(res, tier, seed):
     clients = []
     for _ in range(nseq):
         n = rng.randint(0, 30)
-        pool = ALPHA + ["b", " "] + (SWEEP if rng.random() < 0.3 else [])
+        pool = ALPHA + ["b", " "] + (SWEEP if rng.random() < 0.3 else []) + (EXOTIC if rng.random() < 0.3 else [])
         clients.append("".join(rng.choice(pool) for _ in range(n)))
     servers = [strip_cr(c) for c in clients]
     alive = list(range(nseq))
